@@ -4,6 +4,8 @@ use serde::{Deserialize, Serialize};
 
 /// Largest coordinate magnitude the oracle judges (keeps every p-th power finite in `f32`).
 pub const MAX_ABS_COORD: f64 = 1.0e6;
+/// the same bound for f64 cases (offset clouds sit at 2^27)
+pub const MAX_ABS_COORD_F64: f64 = 4.0e8;
 pub const MAX_DIM: usize = 64;
 pub const MAX_POINTS: usize = 4096;
 
@@ -28,6 +30,8 @@ pub enum PointClass {
     Rough,
     /// coordinates a few ulps apart (adjacent floats of the element type)
     AdjacentFloats,
+    /// small integers translated by a large common offset (2^13 for f32, 2^27 for f64), mostly >= 8 coordinates
+    OffsetCloud,
     /// hundreds to thousands of collinear / lattice / two-scale points derived from a seed
     LargeStructured,
     Bytes,
